@@ -167,8 +167,8 @@ func codecExec(ops []string) (dops []string, res []string) {
 			var es []types.Entry
 			for i := 0; i < n; i++ {
 				v := make([]byte, vs)
-				if i%2 == 0 {
-					rr.Read(v) // incompressible
+				if i%2 == 0 && seed%3 != 0 {
+					rr.Read(v) // incompressible (one workload in three is compressible throughout: a large block, a small encoding)
 				} else {
 					for j := range v {
 						v[j] = byte(i)
@@ -186,6 +186,22 @@ func codecExec(ops []string) (dops []string, res []string) {
 				b, err := d.Encode()
 				if err != nil {
 					return "encode error: " + err.Error()
+				}
+				// the bytes the encoder returned are kept while other encoders, a table build and the wal use the pooled buffers
+				kept := bytes.Clone(b)
+				small := []types.Entry{{Key: types.KeyWithTs("s", 1), Value: []byte("x"), Version: 1}}
+				for k := 0; k < 3; k++ {
+					sd := table.Data{Entries: small}
+					_, _ = sd.Encode()
+					table.Build(small, 4096, 0)
+				}
+				if w, err := wal.Create(dir); err == nil {
+					_ = w.Write(small...)
+					_, _ = w.Read()
+					w.Delete()
+				}
+				if !bytes.Equal(b, kept) {
+					return "CHANGED: the bytes returned by Data.Encode were overwritten by later encoder calls"
 				}
 				var back table.Data
 				if err := back.Decode(b); err != nil {
@@ -586,7 +602,7 @@ func codecGen(r *rand.Rand, n int, big bool) []Case {
 			case 8:
 				if big && r.Intn(4) == 0 {
 					vs := []int{1000, 20000, 65535}[r.Intn(3)]
-					total := []int{270000, 600000, 1100000, 2200000}[r.Intn(4)]
+					total := []int{70000, 130000, 270000, 600000, 1100000, 2200000}[r.Intn(6)]
 					ops = append(ops, fmt.Sprintf("bigblock %d %d %d %d", total/vs+1, vs, []int{4096, 300000, 1 << 20, 4 << 20}[r.Intn(4)], r.Intn(1000)))
 					tags["block-beyond-256KiB"] = true
 					break
